@@ -40,8 +40,8 @@ pub fn replay(run: &[Value], _sub: &str) -> Vec<Value> {
 
 pub fn gen(out: &mut Out, _sub: &str) {
     let mut rng = Rng::new(out.seed ^ 0xC23);
-    let n = out.size(40, 400);
-    let runs = out.size(8, 16);
+    let n = out.size(64, 400);
+    let runs = out.size(10, 16);
     let dir = std::env::var("VERIF_SCRATCH").unwrap_or_else(|_| "/verif/.build/cli_inputs".to_string());
     let inputs: Vec<Value> = (0..n).map(|i| json!({"ev": "reset", "gen_seed": rng.next(), "dir": dir, "id": format!("c23_{}", i), "runs": runs})).collect();
     let cases = crate::par::map(inputs, 8, |inp| exec_case(&inp));
